@@ -4,7 +4,7 @@ from .common import wint
 from .x_arith import mk, fmt_of, mk_hist
 
 
-def observe_bitwise(fx, np, props, op, tx, cxs, ty=None, cys=None, mask=None, side='right', scalar=False, hist=None, shape=None, mask_as=None):
+def observe_bitwise(fx, np, props, op, tx, cxs, ty=None, cys=None, mask=None, side='right', scalar=False, hist=None, shape=None, mask_as=None, iop=False):
     """op in not/and/or/xor.  y: a scalar Fxp of format ty (codes cys, one per x element => element-wise scalar calls are
     made by the caller) or an integer mask on either side."""
     row = {'k': 'bitwise', 'p': list(props), 'op': op, 'x': dict(zip('swf', (bool(tx[0]), tx[1], tx[2]))),
@@ -20,6 +20,18 @@ def observe_bitwise(fx, np, props, op, tx, cxs, ty=None, cys=None, mask=None, si
         if op == 'not':
             Z = ~X
             cy = 0
+        elif iop:                   # the in-place spelling  Z = X; Z &= y   (what Z is afterwards is what the property is about)
+            row['route'] = row['route'] + '/iop'
+            Y = mk(fx, np, ty, cys) if ty else mask
+            Z = X
+            if op == 'and':
+                Z &= Y
+            elif op == 'or':
+                Z |= Y
+            else:
+                Z ^= Y
+            cy = cys if ty else int(mask)
+            X = mk(fx, np, tx, cxs[0] if scalar else cxs, shape)          # (the operand-untouched check below does not apply to in-place spellings)
         elif ty:
             Y = mk(fx, np, ty, cys)           # scalar Fxp second operand
             Z = {'and': lambda: X & Y, 'or': lambda: X | Y, 'xor': lambda: X ^ Y}[op]()
